@@ -65,6 +65,9 @@ func genTarget(c *sim.Case, label string) string {
 	if q := genQuery(c, label+".q"); q != "" {
 		return p + "?" + q
 	}
+	if sim.Weighted(c, label+".bare-question-mark", 5, 1) == 1 {
+		return p + "?" // a query that is present and empty is not the same request line as no query
+	}
 	return p
 }
 
